@@ -2,6 +2,12 @@
 from props_table import PROPS
 
 META = {
+    "C11": {
+        "text": "Lean 4 theorems over a model of dispatch and caller validation (restrict_internal_api, table lookup with fallback rows, the caller_validated state machine, trampoline rule, rollback): extracted_matches_spec (decide +kernel: the method table regenerated from the Rust sources on every run - 158 methods of 16 actors with FRC-42 numbers, restricted/unrestricted dispatch, normalised validation term, validation-first flag, 4 fallback rows - equals the hand-written specification table), rejected_unchanged, designated_passes_validation, internal_api_closed (+ exemptions exactly EAM/EVM/placeholder), completed_implies_validated for arbitrary handler programs, verdict_sound, runtime_structure_as_modelled (structural facts of fvm.rs/dispatch.rs/shared.rs). Dynamic side is exhaustive: every (actor type, defined or boundary/undefined method number, parameter variant, 32 caller classes) cell is executed on the real actors in the harness VM and compared with the specification oracle and with the Lean model's verdict, including state-root equality after every failed call.",
+        "design_ref": "DESIGN.md §7 C11",
+        "note": "Trusted: Lean kernel (propext, Classical.choice, Quot.sound only); regex translator (cross-checked by the exhaustive matrix); harness VM in place of ref-fvm/fvm.rs (fvm.rs tied structurally only); handler bodies are opaque in the model, so body guards of validate-any methods (multisig signer, verifier, provider control address, ...) are exercised by the matrix but proved in C06/C09/C12/C13. Cells are top-level messages; parameters are type-correct but minimal, so for many privileged methods the designated caller passes the validation and then fails in the body.",
+        "technique": "Lean 4 decision-logic proofs + source translator with decide over the regenerated table + exhaustive differential matrix on the real actors",
+    },
     "C16": {
         "text": "Lean 4 theorems over a model of the paych actor that follows the Rust control flow: acceptance soundness (update_sound), exact owed delta, lane-nonce monotonicity and no_replay over arbitrary later histories, 0 <= owed <= balance in every reachable state (inv_owed), settlement height only extends, collect_exact and collect_after_delay (>= settle epoch + 1440). The model is tied to the code on every run by differential execution of generated voucher/settle/collect histories on the real actor in the harness VM against the compiled model, with an independent oracle evaluating the property on the real state.",
         "design_ref": "DESIGN.md §7 C16",
